@@ -74,7 +74,7 @@ func TestC17(t *testing.T) {
 	rec.Rule("case = one transfer through a real adapter: (read) a counter-patterned stream fed to the fake socket under listener.Conn in a seeded partition of socket reads, sniffed by a seeded matcher sequence exactly as Listener.serve does, then read back with seeded buffer sizes; " +
 		"(ws-read) the stream split into binary/text messages with empty messages and control frames in between, each message delivered by a fragmenting reader; (write) 1-200 writes of 1 B-64 KiB through listener.Conn at flush rates 1,3,60,1000 with seeded pauses (a few cross the 1 s timer flush) then Flush; " +
 		"(ws-write) writes through the WebSocket adapter; the bytes out are compared with the bytes in; non-trivial = transfers of >=2 chunks in which at least one matcher peeked (read), a message boundary fell inside a read (ws), or at least one write was queued (write); distinct = hash of the partition and matcher/rate choice")
-	n := vk.N(1500, 60000)
+	n := vk.N(1500, 24000)
 	for ci := 0; ci < n; ci++ {
 		if !vk.Mine(ci) {
 			continue
